@@ -35,10 +35,17 @@ def firstPerFile (seen : List (Nat × Nat)) : List WReq → List WReq
   | r :: rs => if seen.contains (r.file, r.groupTo) then firstPerFile seen rs
                else r :: firstPerFile ((r.file, r.groupTo) :: seen) rs
 
-/-- pending requests into groups that have a node usable by this host, in row order -/
+/-- the nodes of group `g` this host's daemon may work on -/
+def World.usableInGroup (w : World) (hv : HostView) (g : Nat) : List WNode :=
+  w.nodes.filter (fun n => n.group == g && (w.usableIds hv).contains n.id)
+
+/-- a (Default I/O) group is served by this host iff exactly one of its nodes is usable here
+    (`DefaultGroupIO.set_nodes` rejects any other number and the group is skipped) -/
+def World.groupServed (w : World) (hv : HostView) (g : Nat) : Bool := (w.usableInGroup hv g).length == 1
+
+/-- pending requests into groups served by this host, in row order -/
 def World.pendingInto (w : World) (hv : HostView) : List WReq :=
-  w.reqs.filter (fun r => !r.completed && !r.cancelled &&
-      w.nodes.any (fun n => n.group == r.groupTo && (w.usableIds hv).contains n.id))
+  w.reqs.filter (fun r => !r.completed && !r.cancelled && w.groupServed hv r.groupTo)
 
 /-- the first-level steps one update iteration creates: checks of wanted suspect copies and
     deletions on usable nodes, and pull decisions for (the first per file of the) pending requests into groups that
